@@ -152,6 +152,17 @@ def run(ctx):
     exes = {fl: ctx.cc("c19", ["c19.c"], fl, libs=("jpeg",)) for fl in flavours}
 
     cases = []   # (line, kind, meta)
+    if ctx.replay:          # re-execute exactly the recorded case
+        import json
+        r = json.load(open(ctx.replay))
+        l = r.get("case", "")
+        if l:
+            kind = "corpus-" + l.split()[0]
+            meta = [int(x) for x in l.split()[1:257]] if l.startswith("gen ") else None
+            if l.startswith("nbits "):
+                kind, meta = "nbits", tuple(int(x) for x in l.split()[1:3])
+            cases.append((l, kind, meta))
+        return run_cases(ctx, cases, exes, drv, flavours)
     # corpus first
     cdir = os.path.join(core.VERIF, "corpus", "C19")
     if os.path.isdir(cdir):
@@ -213,6 +224,10 @@ def run(ctx):
     for k in range(64):
         cases.append(("nbits %d %d" % (k * 1024, k * 1024 + 1023), "nbits", (k * 1024, k * 1024 + 1023)))
 
+    return run_cases(ctx, cases, exes, drv, flavours)
+
+
+def run_cases(ctx, cases, exes, drv, flavours):
     inp = ("\n".join(c[0] for c in cases) + "\n").encode()
     outs = {}
     for fl, exe in exes.items():
